@@ -191,6 +191,7 @@ func isByteSlice(t types.Type) bool {
 }
 
 func runC10(c *core.Ctx) {
+	checkNewBatchDiscards(c, "C10.discard-leaves-nothing")
 	// ---- tombstones
 	for _, spec := range []struct {
 		pkg, fn  string
@@ -522,6 +523,7 @@ func recvNamedCI(ci ssa.CallInstruction, name string) bool {
 }
 
 func runC11(c *core.Ctx) {
+	checkStateValuesOrderFree(c, "C11.values-order-free")
 	checkLayerMutatorsUnconditional(c)
 	// a failed transaction contributes nothing to the digest: its cache is discarded before the next one runs
 	checkResetBeforeTx(c, "C11.failed-tx-discarded")
